@@ -2,6 +2,7 @@ package rueidis
 
 import (
 	"strconv"
+	"unsafe"
 )
 
 // C16: typed accessors return exactly what the reply encodes. Model values (symbolic where the
@@ -47,6 +48,44 @@ func VerifC16_scalars() {
 			verifAssert(err == nil && u == uint64(v), "AsUint64 returns the encoded integer")
 		}
 		verifReach("int")
+		// boundary classes: one symbolic last digit around MaxInt64 and MaxUint64, and negative text
+		d := verifNondetByte()
+		verifAssume(d >= '0')
+		verifAssume(d <= '9')
+		dv := uint64(d - '0')
+		switch verifChoose(3) {
+		case 0: // 922337203685477580d : MaxInt64 is ...807
+			mb := verifBlob("922337203685477580" + string([]byte{d}))
+			u, err := mb.AsUint64()
+			verifAssert(err == nil && u == 9223372036854775800+dv, "AsUint64 returns the encoded integer beyond MaxInt64")
+			i, err := mb.AsInt64()
+			if dv <= 7 {
+				verifAssert(err == nil && uint64(i) == 9223372036854775800+dv, "AsInt64 returns the encoded integer up to MaxInt64")
+			} else {
+				verifAssert(err != nil, "AsInt64 rejects text beyond MaxInt64")
+			}
+			verifReach("int63")
+		case 1: // 1844674407370955161d : MaxUint64 is ...615
+			mb := verifBlob("1844674407370955161" + string([]byte{d}))
+			u, err := mb.AsUint64()
+			if dv <= 5 {
+				verifAssert(err == nil && u == 18446744073709551610+dv, "AsUint64 returns the encoded integer up to MaxUint64")
+			} else {
+				verifAssert(err != nil, "AsUint64 rejects text beyond MaxUint64")
+			}
+			// a scan cursor is read the same way
+			ms := RedisMessage{typ: typeArray, array: unsafe.SliceData([]RedisMessage{mb, {typ: typeArray}}), intlen: 2}
+			e, err := ms.AsScanEntry()
+			if dv <= 5 {
+				verifAssert(err == nil && e.Cursor == 18446744073709551610+dv, "AsScanEntry keeps a cursor with the top bit set")
+			}
+			verifReach("uint64")
+		default: // negative text is not an unsigned integer
+			mb := verifBlob("-" + string([]byte{d}))
+			_, err := mb.AsUint64()
+			verifAssert(err != nil || dv == 0, "AsUint64 rejects negative text")
+			verifReach("neguint")
+		}
 	case 1: // booleans
 		b := verifNondetBool()
 		n := int64(0)
